@@ -16,7 +16,7 @@ EXPLANATION = (
     "during dispatch, so nested batch dispatches do not block each other. That all siblings are inside run simultaneously is not decided.")
 ASSUMPTIONS = ["rayon work-stealing runs independent for_each items on idle workers", "std RwLock read locks are shared"]
 TRUSTED = ["rustc nightly MIR construction", "shred-facts driver", "shredlint analyses"]
-TECHNIQUE = 'static: coverage shape of Stage::execute (rayon for_each over whole groups), routing coverage, origin analysis of the pool used by install/spawn, fill-only-if-empty rule on the pool slot (structured evaluation), thread-cap zero-count with positive example, lock-site inventory'
+TECHNIQUE = 'static: coverage shape of Stage::execute (rayon for_each over whole groups), routing coverage, provenance of the pool term of every install / spawn crossing (structured evaluation, helpers looked into), pool crossings owned by the audited entry points and counted per way through them, fill-only-if-empty rule on the pool slot (structured evaluation), thread-cap zero-count with positive example, lock-site inventory'
 RULE_TEXT = "one obligation per routing site, pool origin, pool-configuration call and lock site; zero-count classes (thread caps) have positive examples in the probe crate (thorough)"
 
 
